@@ -175,6 +175,7 @@ func (s *Server) handleConn(c *Conn) error {
 			}
 
 			c.handle(cmd, arg)
+			verifYield("conn.loop")
 		} else {
 			if err == io.EOF || errors.Is(err, net.ErrClosed) {
 				return nil
